@@ -44,9 +44,8 @@ Definition vres_eqb (a b : verr + bytes) : bool :=
   end.
 
 Inductive item :=
-| IPath (data : bytes) (res : lerr + bytes)          (* MerkleLeafPath(data, hs) *)
-| IProve (path root : bytes) (res : verr + bytes)    (* MerkleProve(path, root) *)
-| IRoundTrip (data : bytes).                         (* the code proved its own path for data *)
+| IPath (data : bytes) (res : lerr + bytes)          (* MerkleLeafPath(data, hs); the code then proved it *)
+| IProve (path root : bytes) (res : verr + bytes).   (* MerkleProve(path, root) *)
 
 Inductive case :=
 | CHash (leaf : bool) (a b : bytes) (out : bytes)
@@ -57,13 +56,13 @@ Inductive case :=
 
 Definition item_ok (H : bytes -> bytes) (hs : list bytes) (rfc : bytes) (i : item) : bool :=
   match i with
-  | IPath data res => lres_eqb (merkle_leaf_path_f64 H data hs) res
+  | IPath data res =>
+      lres_eqb (merkle_leaf_path_f64 H data hs) res
+      && match res with
+         | inr p => vres_eqb (merkle_prove H p rfc) (inr data)
+         | inl _ => true
+         end
   | IProve path root res => vres_eqb (merkle_prove H path root) res
-  | IRoundTrip data =>
-      match merkle_leaf_path_f64 H data hs with
-      | inr p => vres_eqb (merkle_prove H p rfc) (inr data)
-      | inl _ => false
-      end
   end.
 
 Definition case_ok (c : case) : bool :=
@@ -72,7 +71,7 @@ Definition case_ok (c : case) : bool :=
   | CHash false a b out => bytes_eqb (hash_children sha256 a b) out
   | CDepth n d =>
       match depth_f64_N n with
-      | Some k => (Z.of_nat k =? d)%Z && Nat.eqb k (N.to_nat (N.log2_up n))
+      | Some k => (Z.of_nat k =? d)%Z
       | None => (d <? 0)%Z
       end
   | CList tbl hs rfc levels items =>
